@@ -2,6 +2,8 @@ package main
 
 import (
 	"bufio"
+	"go/ast"
+	"go/constant"
 	"fmt"
 	"go/token"
 	"go/types"
@@ -31,6 +33,7 @@ type Engine struct {
 	fileLines     map[string][]string
 	noEffect      []string
 	repo          string
+	globalTables  map[types.Object][]constant.Value // immutable package-level lookup tables
 }
 
 var defaultNoEffect = []string{
@@ -202,6 +205,7 @@ func loadEngine(repo string, patterns []string) (*Engine, error) {
 		}
 		e.funcs[k] = fn
 	}
+	e.findGlobalTables()
 	// contract files: zz_verif_contracts*.go in module packages, plus /verif/specs/*.spec
 	for path, p := range e.pkgs {
 		if !strings.HasPrefix(path, modPath) {
@@ -479,4 +483,95 @@ func (vc *VC) frameObligations(fn *ssa.Function, con *Contract, args []Val, entr
 		}
 		vc.oblige(out, "frame", key+"#frame:"+n, "frame: "+n+" unchanged for pre-existing objects", pos, and(append([]string{goal}, extra...)...))
 	}
+}
+
+// findGlobalTables: package-level array/slice variables of the module that are initialised by a
+// composite literal of constants and never assigned afterwards (checked over all SSA functions)
+// are lookup tables; their contents are taken from the source.
+func (e *Engine) findGlobalTables() {
+	e.globalTables = map[types.Object][]constant.Value{}
+	cand := map[types.Object][]constant.Value{}
+	for path, p := range e.pkgs {
+		if !strings.HasPrefix(path, modPath) || p.TypesInfo == nil {
+			continue
+		}
+		for _, f := range p.Syntax {
+			for _, d := range f.Decls {
+				gd, ok := d.(*ast.GenDecl)
+				if !ok || gd.Tok != token.VAR {
+					continue
+				}
+				for _, sp := range gd.Specs {
+					vs, ok := sp.(*ast.ValueSpec)
+					if !ok || len(vs.Names) != 1 || len(vs.Values) != 1 {
+						continue
+					}
+					cl, ok := vs.Values[0].(*ast.CompositeLit)
+					if !ok {
+						continue
+					}
+					obj := p.TypesInfo.Defs[vs.Names[0]]
+					if obj == nil {
+						continue
+					}
+					if _, isArr := obj.Type().Underlying().(*types.Array); !isArr {
+						continue
+					}
+					var vals []constant.Value
+					good := true
+					for _, el := range cl.Elts {
+						if _, kv := el.(*ast.KeyValueExpr); kv {
+							good = false
+							break
+						}
+						tv, ok := p.TypesInfo.Types[el]
+						if !ok || tv.Value == nil {
+							good = false
+							break
+						}
+						vals = append(vals, tv.Value)
+					}
+					if good && len(vals) > 0 {
+						cand[obj] = vals
+					}
+				}
+			}
+		}
+	}
+	if len(cand) == 0 {
+		return
+	}
+	// any store whose address is rooted at the global (outside package initialisation) disqualifies it
+	for fn := range ssautil.AllFunctions(e.prog) {
+		if fn.Name() == "init" || strings.HasPrefix(fn.Name(), "init#") {
+			continue
+		}
+		for _, b := range fn.Blocks {
+			for _, in := range b.Instrs {
+				var addr ssa.Value
+				switch x := in.(type) {
+				case *ssa.Store:
+					addr = x.Addr
+				case *ssa.Slice:
+					addr = x.X
+				default:
+					continue
+				}
+				for {
+					switch a := addr.(type) {
+					case *ssa.IndexAddr:
+						addr = a.X
+						continue
+					case *ssa.FieldAddr:
+						addr = a.X
+						continue
+					case *ssa.Global:
+						delete(cand, a.Object())
+					}
+					break
+				}
+			}
+		}
+	}
+	e.globalTables = cand
 }
